@@ -2,8 +2,20 @@
 
 Every random choice comes from the `random.Random` handed in. Programs terminate by
 construction: loops are bounded (while always has max <= 3, retry has max <= 3 unless the
-failure script is finite), call/jump/pype targets form a DAG (a group only reaches
-higher-numbered groups, a pipeline only deeper children).
+failure script is finite; the rare unbounded retry around a step that always fails runs out of
+fuel in the model and is then not run on the implementation), call/jump/pype targets form a DAG
+(a group only reaches higher-numbered groups - the dedicated on_success / on_failure groups may
+reach any of them - and a pipeline only deeper children), except for the self-pyping pipelines of
+`Gen.self_pype`, whose recursion a counter in the context bounds.
+
+Unusual values are in range on purpose (each with a small probability): group names '' and
+expressions that format to '' / [], `groups` given as a string or a number, retry / while `max`
+negative, zero, float-like, a numeric or non-numeric string or an expression, negative sleeps, a
+list `sleep` (also empty) with every back-off strategy, back-off names through expressions, unknown
+and dotted ones, a `base` that is no number, `stopOn` / `retryOn` as a plain string (substring
+semantics) or an expression, `in` that is no mapping, KeyError (whose str() quotes), `runErrors`
+pre-set to something that is no list, onError / run / skip / swallow expressions that fail to format,
+foreach over a string, a tuple, a number.
 """
 from __future__ import annotations
 
@@ -39,7 +51,9 @@ LAYOUTS = [
 # foreach items: falsy values are items like any other
 FOREACH_LISTS = [[1, 2], ['a'], [], [[1], [2, 3]], '{lst}', {'py': {'n': 'lst'}}, [None, 0], '{empty}', ['x', 'y', 'z'],
                  {'d': [['ka', 1], ['kb', 2]]}, ['a', None], [None], [0, ''], [False, 'b'], [[], {'d': []}], [None, 'z'],
-                 '{falsy}', ['', False, 0]]
+                 '{falsy}', ['', False, 0], 'ab', '{tup}', '{k1}']
+# iterables that are none: `for i in foreach` raises TypeError (outside run/skip/swallow: not recorded)
+FOREACH_BAD = [5, True, {'py': {'c': 3}}, '{n1}', {'f': [3, 1]}]
 
 # group bodies that are no sequence of steps / sequence items that are no steps (yaml slips)
 BAD_BODIES = [{'scalar': 42}, {'scalar': 0}, {'scalar': {'f': [3, 1]}}, {'scalar': True}, {'scalar': False},
@@ -49,7 +63,8 @@ BAD_ITEMS = [{'item': 1}, {'item': None}, {'item': [1, 2]}, {'item': {'f': [1, 1
              {'in': [['a', 1]]}, {'name': 5}, {'name': [1]}, {'name': 0, 'in': [['a', 1]]}, {'name': True, 'swallow': True},
              {'name': 7, 'retry': {'bad': [1]}}]
 
-ERR_NAMES = ['ValueError', 'TypeError', 'RuntimeError', 'vprobe.ProbeError', 'vprobe.OtherError']
+ERR_NAMES = ['ValueError', 'TypeError', 'RuntimeError', 'vprobe.ProbeError', 'vprobe.OtherError', 'KeyError',
+             'vprobe.FalsyError', 'built.BuiltError', 'main.MainError']
 TRUTHY = [True, 'true', 'True', 'TRUE', '1', '1.0', 1, 2, [0], 'tRuE']
 FALSY = [False, 'false', 'False', '0', '', 'yes', 0, [], None, ' true', 'no']
 
@@ -146,40 +161,77 @@ class Gen:
         if self.chance(0.3):
             st['swallow'] = self.boolish(want=self.chance(0.7))
         if self.chance(0.25):
-            st['foreach'] = json.loads(json.dumps(self.pick(FOREACH_LISTS)))
+            st['foreach'] = json.loads(json.dumps(self.pick(FOREACH_BAD if self.chance(0.06) else FOREACH_LISTS)))
         if self.chance(0.22):
             w = {}
             if self.chance(0.85):
                 w['max'] = self.pick([1, 2, 3, 0, '{two}', 2])
+                if self.chance(0.12):
+                    w['max'] = self.pick([-1, '{neg}', '{zero}', '2', ' 3 ', {'f': [5, 1]}, True, 'x', '', [2], '-2'])
             if 'max' not in w or self.chance(0.5):
                 w['stop'] = self.pick(['{flag}', pyname('flag'), pycmp('whileCounter', '>=', 2), True, False,
-                                       pycmp('whileCounter', '==', 1), '{f1}'])
+                                       pycmp('whileCounter', '==', 1), '{f1}', '{f2}', '{t2}', 'is{flag}', '{raw}', 'no',
+                                       '{k1}'])
                 w.setdefault('max', self.pick([2, 3]))
             if self.chance(0.3):
                 w['sleep'] = self.pick([0, 1, {'f': [1, 1]}, '{two}', 2])
+                if self.chance(0.1):
+                    w['sleep'] = self.pick([-1, '{neg}', {'f': [-1, 1]}, 'x', '2'])
             if self.chance(0.4):
-                w['errorOnMax'] = self.pick([True, False, '{t1}', 'true'])
+                w['errorOnMax'] = self.pick([True, False, '{t1}', 'true', '{f2}', '{t2}', 'no', '{raw}'])
             st['while'] = w
         if self.chance(0.25):
             rt = {'max': self.pick([1, 2, 3, '{two}', 3])}
+            if self.chance(0.12):
+                # negative: one attempt, then `assert is_retry_ok` fails; 0 / absent: unbounded
+                mx = self.pick([-1, '{neg}', '-2', {'f': [5, 1]}, '2', True, '{zero}', 0, None, 'x', [1], ''])
+                if mx is None:
+                    del rt['max']
+                else:
+                    rt['max'] = mx
             if self.chance(0.5):
                 rt['sleep'] = self.pick([0, 1, 2, {'f': [1, 1]}, [1, 2, 3], [4], '{two}'])
+                if self.chance(0.12):
+                    rt['sleep'] = self.pick([[], -1, '{neg}', [2, -1], {'f': [-1, 1]}, '{empty}', [0]])
             if self.chance(0.5):
                 rt['backoff'] = self.pick(['fixed', 'linear', 'exponential', 'jitter', 'linearjitter',
                                            'exponentialjitter'])
+                if self.chance(0.12):
+                    rt['backoff'] = self.pick(['{bname}', 'nope', 'nomodule.X', 'nomodule.a.X', 'vprobe.Nope', 5, [1],
+                                               '', '{n1}', 'Fixed', '{nokey}'])
             if self.chance(0.3):
                 rt['sleepMax'] = self.pick([1, 3, {'f': [5, 1]}, 0, 100])
+                if self.chance(0.2):
+                    # a cap that arrives as text (cli argument, environment): float(text)
+                    rt['sleepMax'] = self.pick(['3', '2.5', '{capt}', ' 4 ', 'x', '', '{es}', '0'])
             if self.chance(0.3):
                 rt['jrc'] = self.pick([0, {'f': [1, 1]}, 1, {'f': [1, 2]}])
+                if self.chance(0.1):
+                    rt['jrc'] = self.pick([-1, 2, '{two}'])
             if self.chance(0.2):
                 rt['backoffArgs'] = D(base=self.pick([2, 3, 1]))
+                if self.chance(0.2):
+                    rt['backoffArgs'] = self.pick([D(base='x'), D(base=None), 'abc', [1], 0, D(other=1), D(base={'f': [5, 1]}),
+                                                   D(base='{two}'), D()])
             if self.chance(0.25):
                 rt['stopOn'] = self.r.sample(ERR_NAMES, r.randint(1, 2))
+                if self.chance(0.2):
+                    rt['stopOn'] = self.pick(['ValueError', 'xTypeErrorx', 'Error', '{names}', '{sname}', 5, '', [],
+                                              'vprobe.ProbeError RuntimeError'])
             if self.chance(0.25):
                 rt['retryOn'] = self.r.sample(ERR_NAMES, r.randint(1, 3))
+                if self.chance(0.2):
+                    rt['retryOn'] = self.pick(['ValueError', 'xTypeErrorx', 'Error', '{names}', '{sname}', 5, '', [],
+                                               'vprobe.ProbeError RuntimeError KeyError'])
             st['retry'] = rt
         if self.chance(0.2):
             st['onError'] = self.pick(['plain', D(code=1, note='{k1}'), '{k2}', [1, '{k1}'], 0])
+            if self.chance(0.08):
+                st['onError'] = self.pick(['{nokey}', D(a='{nokey}'), pyname('nokey')])
+        # a decorator expression that fails to format: its error is raised outside the try of
+        # run_conditional_decorators (run, skip) or inside its except clause (swallow): never recorded
+        if self.chance(0.03):
+            st[self.pick(['run', 'skip', 'swallow'])] = self.pick(['{nokey}', pyname('nokey')])
         # a description: formatted once, up front (its own errors propagate; those of the run/skip preview do not)
         if self.chance(0.15):
             st['description'] = self.pick(['plain text', 'step for {k1}', '{k2}', '', 0, ['a', '{k1}'], pyname('k1'),
@@ -240,11 +292,19 @@ class Gen:
             ins.append([self.pick(['k1', 'arg1', 'flag']), self.pick(['inval', 1, True, '{k2}'])])
         if ins:
             st['in'] = ins
+        if self.chance(0.02):
+            # `in:` that is no mapping: set_step_input_context itself fails ('' is a no-op)
+            st['in'] = {'bad': self.pick(['ab', 5, '', True, 0, {'f': [1, 1]}, 'x'])}
         if self.chance(0.55):
             self.decorate(st, pipe, kind)
         return st
 
     def cof_cfg(self, targets):
+        if self.chance(0.05):
+            # a group name that is '' (assert step_group_name), a raw configuration that is falsy (the assert in
+            # the finally of invoke_step), expressions that format to those
+            return self.pick(['', [], '{es}', '{empty}', [targets[0], ''], D(groups=['', targets[0]]), D(groups='{es}'),
+                              D(groups=targets[0], failure=''), D(groups=[targets[0]], success='', failure=targets[-1])])
         gs = self.r.sample(targets, self.r.randint(1, min(2, len(targets))))
         form = self.wpick([('str', 3), ('list', 2), ('dict', 3), ('fmt', 1)])
         if form == 'str':
@@ -252,7 +312,9 @@ class Gen:
         if form == 'list':
             return gs
         if form == 'fmt':
-            return '{gname}'
+            # '{gname}' is 'g1'; 'g{n1}' reads a plain key, 'g{i}' / 'g{whileCounter}' the caller's own loop counter
+            # (a name that does not exist when the step has no such loop or the counter names no group)
+            return self.pick(['{gname}', '{gname}', 'g{n1}', 'g{i}', 'g{whileCounter}', 'g{retryCounter}'])
         d = {'groups': gs if self.chance(0.6) else gs[0]}
         if self.chance(0.4):
             d['success'] = self.pick(targets + ['nogroup'])
@@ -276,6 +338,9 @@ class Gen:
             d['raiseError'] = self.chance(0.4)
         if self.chance(0.2):
             d['groups'] = self.pick(['steps', ['steps', 'g1'], ['g1']])
+            if self.chance(0.15):
+                d['groups'] = self.pick([5, 0, True, '', [], ['steps', ''], D(steps=1, g1=2), {'f': [3, 1]}, '{es}',
+                                         '{n1}'])
             if self.chance(0.5):
                 d['success'] = 'on_success'
             if self.chance(0.5):
@@ -296,7 +361,9 @@ class Gen:
         for h in ('on_success', 'on_failure'):
             if self.chance(0.5):
                 n = self.r.randint(0, 2)
-                steps = [self.step(name, h, [], [], depth) for _ in range(n)] if n or self.chance(0.7) else None
+                # the dedicated handlers may call / jump / switch to any custom group and pype any child
+                steps = ([self.step(name, h, custom, children, depth) for _ in range(n)]
+                         if n or self.chance(0.7) else None)
                 groups.append([h, steps])
         # yaml slips: what stands under a group name is no sequence, or a sequence item is no step
         if self.chance(0.12):
@@ -315,6 +382,28 @@ class Gen:
                 p['layout'] = dict(lay)
         return p
 
+    def self_pype(self, pipe):
+        """The pipeline pypes ITSELF: a leading step counts the depth in the (shared or handed-down) context and
+        the pype step is skipped once it reaches the bound."""
+        bound = self.r.randint(1, 3)
+        cfg = {'name': pipe['name']}
+        if self.chance(0.4):
+            cfg['args'] = D(depth='{depth}', k1='{k1}')          # a context of its own, the counter handed down
+            if self.chance(0.5):
+                cfg['out'] = 'depth'
+        if self.chance(0.3):
+            cfg['raiseError'] = self.chance(0.5)
+        count = {'name': 'pypyr.steps.set',
+                 'in': [['set', D(depth={'py': {'op': '+', 'a': {'n': 'depth'}, 'b': {'c': 1}}})]]}
+        again = {'name': 'pypyr.steps.pype', 'in': [['pype', D(**cfg)]], 'skip': pycmp('depth', '>=', bound)}
+        if self.chance(0.3):
+            again['swallow'] = True
+        for g, steps in pipe['groups']:
+            if g == 'steps' and isinstance(steps, list):
+                steps.insert(0, count)
+                steps.insert(self.r.randint(1, len(steps)), again)
+                return
+
     def program(self):
         self.tagn = 0
         nchild = self.wpick([(0, 5), (1, 3), (2, 2)])
@@ -325,15 +414,32 @@ class Gen:
         run = {'name': 'main'}
         ctx = {'k1': 'v1', 'k2': 'two {k1}', 't1': True, 't2': 'TRUE', 'f1': False, 'f2': 'no', 'n1': 1,
                'two': 2, 'lst': ['l1', 'l2'], 'empty': [], 'flag': False, 'gname': 'g1', 'raw': 'r',
-               'falsy': [0, None, '']}
+               'falsy': [0, None, ''], 'neg': -1, 'zero': 0, 'es': '', 'bname': 'linear',
+               'names': ['ValueError', 'KeyError'], 'sname': 'xTypeErrorx vprobe.OtherError', 'tup': {'t': [1, 'b']},
+               'depth': 0, 'capt': '1.5'}
+        if self.chance(0.04):
+            # runErrors already there and no list: save_error's append fails
+            ctx['runErrors'] = self.pick(['x', None, D(a=1), 5, []])
         if self.chance(0.85):
             run['dict_in'] = D(**ctx)
+            if self.chance(0.1):
+                self.self_pype(pipes[0])
         if self.chance(0.25):
             run['args_in'] = self.pick([['x=1', 'y=2'], ['FAIL'], ['a b'], []])
+        if pipes[0].get('parser') == 'vparser' and self.chance(0.3):
+            # the context parser fails: the failure handler (with whatever instructions it holds) runs first
+            run['args_in'] = ['FAIL']
         if self.chance(0.2):
             run['parse_args'] = self.chance(0.5)
+        if self.chance(0.12):
+            # config.default_backoff as configured for this run: what a retry without `backoff` uses
+            run['default_backoff'] = self.pick(['linear', 'exponential', 'jitter', 'linearjitter', 'fixed', 'nope',
+                                                'exponentialjitter'])
         if self.chance(0.3):
             run['groups'] = self.pick([['steps'], ['g1'], ['steps', 'g1'], ['g1', 'steps'], ['nogroup', 'steps']])
+            if self.chance(0.12):
+                # '' is no group name (assert); a string is iterated character by character; a number not at all
+                run['groups'] = self.pick([[''], ['steps', ''], ['', 'steps'], 'g1', 'steps', 5, 0, True, []])
         if self.chance(0.25):
             run['success'] = self.pick(['on_success', 'g1', 'nogroup'])
         if self.chance(0.25):
